@@ -7,6 +7,7 @@ import (
 	"flag"
 	"fmt"
 	"net"
+	"io"
 	"net/http"
 	"os"
 	"os/exec"
@@ -925,6 +926,128 @@ func LimitsCheck(args []string) {
 			el := time.Since(t0).Seconds()
 			if float64(ok) > 3+el*1+1 {
 				v("more_creates_accepted_than_the_rate_allows", map[string]any{"created": ok, "attempts": tries, "burst": 3, "per_second": 1, "seconds": el})
+			}
+		}})
+	// a receiver that connects again under its own peer id replaces its hub entry; whatever the server answers,
+	// the host must never end up with more registered receivers than the limit once the old socket is gone
+	for _, n := range []int{1, 2} {
+		n := n
+		cases = append(cases, limitsCase{Name: fmt.Sprintf("max-receivers=%d reconnect under the same peer id", n), Flags: off("--max-receivers-per-sender", fmt.Sprint(n)),
+			Run: func(s *server, v func(string, map[string]any)) {
+				codes := mustCreate(s, 1)
+				host, _, _ := dialWS(wsURL(s, codes[0], "host", "sender"))
+				var rs []*wsClient
+				for i := 0; i < n; i++ {
+					c, _, err := dialWS(wsURL(s, codes[0], fmt.Sprintf("r%d", i), "receiver"))
+					if err != nil {
+						v("receiver_limit_rejects_below_limit", map[string]any{"limit": n, "admitted": i})
+						return
+					}
+					rs = append(rs, c)
+				}
+				for round := 0; round < 2; round++ {
+					// r0 again, while its old socket is still open
+					again, _, _ := dialWS(wsURL(s, codes[0], "r0", "receiver"))
+					rs[0].conn.Close()
+					time.Sleep(150 * time.Millisecond)
+					if again != nil {
+						rs[0] = again
+					} else {
+						// refused while the old socket held the slot: once that is gone the receiver gets back in
+						for k := 0; k < 100 && again == nil; k++ {
+							again, _, _ = dialWS(wsURL(s, codes[0], "r0", "receiver"))
+							if again == nil {
+								time.Sleep(10 * time.Millisecond)
+							}
+						}
+						if again == nil {
+							v("receiver_slot_not_released_on_leave", map[string]any{"limit": n, "after": "reconnect under the same peer id"})
+							return
+						}
+						rs[0] = again
+					}
+					// now a stranger tries
+					extra, _, _ := dialWS(wsURL(s, codes[0], fmt.Sprintf("stranger%d", round), "receiver"))
+					time.Sleep(100 * time.Millisecond)
+					live := 0
+					for _, c := range append(append([]*wsClient{}, rs...), extra) {
+						if c != nil && !c.isDead() {
+							live++
+						}
+					}
+					if live > n {
+						v("more_receivers_than_max_receivers_per_sender", map[string]any{"limit": n, "receivers_connected": live, "arrival": "reconnect under the same peer id, then another receiver"})
+						return
+					}
+					if extra != nil {
+						extra.conn.Close()
+						time.Sleep(50 * time.Millisecond)
+					}
+				}
+				if host != nil {
+					host.conn.Close()
+				}
+			}})
+	}
+	// the per-address rate limits must not be escapable by claiming another address in a request header
+	forged := func(i int) http.Header {
+		ip := fmt.Sprintf("203.0.113.%d", 1+i%250)
+		h := http.Header{}
+		switch i % 3 {
+		case 0:
+			h.Set("X-Forwarded-For", ip)
+		case 1:
+			h.Set("X-Real-IP", ip)
+		default:
+			h.Set("Forwarded", "for="+ip)
+		}
+		return h
+	}
+	cases = append(cases, limitsCase{Name: "ws-connects hammering with forged client-address headers", Flags: append(off("--ws-connects-per-min", "60"), "--ws-connects-burst", "4"),
+		Run: func(s *server, v func(string, map[string]any)) {
+			codes := mustCreate(s, 1)
+			t0 := time.Now()
+			okc, tries := 0, 0
+			var keep []*websocket.Conn
+			for time.Since(t0) < 1200*time.Millisecond {
+				d := websocket.Dialer{HandshakeTimeout: 3 * time.Second}
+				c, _, err := d.Dial(wsURL(s, codes[0], fmt.Sprintf("f%d", tries), "receiver"), forged(tries))
+				tries++
+				if err == nil {
+					okc++
+					keep = append(keep, c)
+				}
+			}
+			el := time.Since(t0).Seconds()
+			if float64(okc) > 4+el*1+1 {
+				v("more_connects_accepted_than_the_rate_allows", map[string]any{"admitted": okc, "attempts": tries, "burst": 4, "per_second": 1, "seconds": el, "headers": "X-Forwarded-For / X-Real-IP / Forwarded differ per request"})
+			}
+			for _, c := range keep {
+				c.Close()
+			}
+		}})
+	cases = append(cases, limitsCase{Name: "session-creates hammering with forged client-address headers", Flags: append(off("--session-creates-per-min", "60"), "--session-creates-burst", "3"),
+		Run: func(s *server, v func(string, map[string]any)) {
+			t0 := time.Now()
+			ok, tries := 0, 0
+			cl := &http.Client{Timeout: 3 * time.Second}
+			for time.Since(t0) < 1200*time.Millisecond {
+				req, _ := http.NewRequest(http.MethodPost, s.url+"/session", nil)
+				req.Header = forged(tries)
+				tries++
+				resp, err := cl.Do(req)
+				if err != nil {
+					continue
+				}
+				io.Copy(io.Discard, resp.Body)
+				resp.Body.Close()
+				if resp.StatusCode >= 200 && resp.StatusCode < 300 {
+					ok++
+				}
+			}
+			el := time.Since(t0).Seconds()
+			if float64(ok) > 3+el*1+1 {
+				v("more_creates_accepted_than_the_rate_allows", map[string]any{"created": ok, "attempts": tries, "burst": 3, "per_second": 1, "seconds": el, "headers": "X-Forwarded-For / X-Real-IP / Forwarded differ per request"})
 			}
 		}})
 	done := map[string]int{}
